@@ -22,7 +22,8 @@ LEVEL_NOTE = ("trusted: translator + Xval semantics (validated by correspondence
 TECHNIQUE = "Coq proof (Q-level axiom-free; Coquelicot is_RInt for the integral over theta) over translator-regenerated kernels + extracted-model correspondence"
 SITES = ["C11.q", "C11.h", "C11.e", "C11.merge"]
 RULE = ("kernel level: full tie grid (fcst, obs, theta on a common dyadic grid so theta == fcst and theta == obs occur, NaN, +-inf) for the three "
-        "functionals; function level: structured random cases (1-3 dims of size 1-3, obs on a random subset, values on the grid k/2, NaN "
+        "functionals, with the extended-real specification value wherever no argument is NaN; +-inf forecasts / observations / thetas also in "
+        "the oracle grid, the oracle means and the model tie of murphy_score and murphy_thetas; function level: structured random cases (1-3 dims of size 1-3, obs on a random subset, values on the grid k/2, NaN "
         "injected, thetas as list or DataArray containing forecast and observation values, functional spelled in mixed case, decomposition "
         "on/off, all request spellings, malformed alpha / huber_a / functional); murphy_thetas with 1-3 forecast sources, NaN, +-inf, "
         "left_limit_delta and huber_a from a grid; a case is distinct by the hash of (function, inputs, options) and non-trivial when it "
@@ -32,6 +33,13 @@ TRUSTED = ["R-level theorems (coq/proofs/C11_RInt.v): Coq Reals + Coquelicot and
 
 INF = float("inf")
 NAN = float("nan")
+# counters every complete run must have incremented (one per predicate family / input class); see core.run_check
+EXPECT_COUNTS = ["kernel_grid_points", "kernel_grid:infinite-spec", "oracle_grid_points", "oracle_grid:infinite", "oracle_means:list", "oracle_means:da",
+                 "oracle_means:da_b", "oracle_means:infinite", "murphy:ok", "murphy:err", "murphy:infinite", "functional:quantile", "functional:huber",
+                 "functional:expectile", "thetas:DataArray", "thetas:list", "thetas:ok", "thetas:err", "thetas:infinite-forecast", "thetas:infinite-obs",
+                 "dtype:int", "dtype:float32", "diagram_rounds", "diagram:infinite", "guard_probes", "ragged_corpus", "label_sets_corpus", "fine_thetas"]
+# repaired by repo_fixes/murphy-infinite-forecast.diff: an infinite forecast scored 0 for the quantile and Huber functionals
+KEY_INF_FCST = "murphy-infinite-forecast"
 FUNCS = ["quantile", "huber", "expectile"]
 ALPHAS = [Fr(1, 10), Fr(1, 4), Fr(1, 2), Fr(3, 4)]
 HUBERS = [Fr(1, 2), Fr(1), Fr(5, 2)]
@@ -86,13 +94,36 @@ def kernel_grid(ctx):
                 ctx.tie_fail(f"gen_murphy_{fn} vs _{fn}_elementary_score", {"fcst": f, "obs": o, "theta": t, "alpha": alpha, "huber_a": a},
                              (float(over[i]), float(under[i])), k)
             if spec:
-                # the impl's merged value on this valid cell = over.combine_first(under).fillna(0)
-                tot = over[i] if not np.isnan(over[i]) else (under[i] if not np.isnan(under[i]) else 0.0)
-                if not core.close(tot, spec[0]):
-                    ctx.violation(f"{fn} elementary score differs from the definition", {"fcst": f, "obs": o, "theta": t, "alpha": alpha, "huber_a": a}, spec[0], tot)
-                if not core.close(mg[0], spec[0]):
+                # the implementation's merge on this valid cell: total = over.combine_first(under).fillna(0), parts = part.fillna(0);
+                # spec = (total, under, over) of the extended-real definition (rational or +-inf arguments)
+                fz = lambda v: 0.0 if np.isnan(v) else float(v)      # noqa: E731
+                got = (fz(over[i]) if not np.isnan(over[i]) else fz(under[i]), fz(under[i]), fz(over[i]))
+                if any(isinstance(v, float) and np.isinf(v) for v in (f, o, t)):
+                    ctx.count("kernel_grid:infinite-spec")
+                if not all(core.close(g, w) for g, w in zip(got, spec)):
+                    ctx.violation(f"{fn} elementary score differs from the definition", {"fcst": f, "obs": o, "theta": t, "alpha": alpha, "huber_a": a},
+                                  dict(zip(NAMES, spec)), dict(zip(NAMES, got)), finding_key=inf_fcst_key(fn, [f], got, (0.0, 0.0, 0.0)))
+                if not all(same_value(g, w) for g, w in zip(mg, spec)):
                     ctx.tie_fail("generated merge differs from the specification", {"fcst": f, "obs": o, "theta": t}, mg, spec)
     ctx.count("kernel_grid_points", n)
+
+
+def same_value(x, y):
+    """two model values (Fraction, nan, +-inf) are the same value"""
+    if isinstance(x, float) or isinstance(y, float):
+        return isinstance(x, float) and isinstance(y, float) and ((x != x and y != y) or x == y)
+    return x == y
+
+
+def inf_fcst_key(fn, fcsts, got, defect_value):
+    """the finding key of the infinite-forecast defect (repaired by repo_fixes/murphy-infinite-forecast.diff), only when the deviation is
+    that defect: quantile / Huber functional, an infinite forecast among the cases, and the value returned is the one obtained when the
+    cases with an infinite forecast contribute 0"""
+    if fn not in ("quantile", "huber") or not any(isinstance(v, float) and np.isinf(v) for v in fcsts):
+        return None
+    got = got if isinstance(got, (tuple, list)) else [got]
+    dv = defect_value if isinstance(defect_value, (tuple, list)) else [defect_value]
+    return KEY_INF_FCST if all(core.close(g, w) for g, w in zip(got, dv)) else None
 
 
 def call_murphy(fcst, obs, thetas, fn, alpha, huber_a, dec, rd, pd):
@@ -169,6 +200,14 @@ def murphy_cases(ctx, n):
         obs = mk(rng, sizes, gens.sub_dims(rng, sizes, p_drop=0.25), operms, nan_p=0.12 if rng.random() < 0.3 else 0.0)
         if rng.random() < 0.4:
             obs = gens.force_ties(rng, fcst, obs)
+        infinite = rng.random() < 0.25
+        if infinite:        # +-inf as valid data among the forecasts / observations (and, through the pool, the thetas)
+            for da in (fcst, obs):
+                v = da.values.ravel().copy()
+                for q in range(v.size):
+                    if rng.random() < 0.3:
+                        v[q] = rng.choice([INF, -INF])
+                da.values = v.reshape(da.shape)
         thetas = gen_thetas(rng, fcst, obs)
         fn = rng.choice(FUNCS)
         bad = rng.random() < 0.12
@@ -193,6 +232,8 @@ def murphy_cases(ctx, n):
         ctx.count("murphy:" + ("ok" if impl[0] == "ok" else impl[1]))
         ctx.count("functional:" + fn)
         ctx.count("thetas:" + ("DataArray" if isinstance(thetas, xr.DataArray) else "list"))
+        if infinite and impl[0] == "ok":
+            ctx.count("murphy:infinite")
         if i < 2:
             ctx.sample(d)
         if not ok:
@@ -215,14 +256,18 @@ def gen_sources(rng, ragged=False):
         sz = gens.rand_sizes(rng, maxdims=2) if (ragged and j > 0) else sizes
         # sources may differ in shape and dimension order for every functional (38f0f85)
         da = gens.rand_da(rng, sz, dims=None if ragged else order, shuffle=ragged, den=2, bound=4, nan_p=0.15 if rng.random() < 0.4 else 0.0)
-        if rng.random() < 0.1:
-            v = da.values.ravel()
+        if rng.random() < 0.15:
+            v = da.values.ravel().copy()
             v[rng.randrange(v.size)] = rng.choice([INF, -INF])
             da.values = v.reshape(da.shape)
         if rng.random() < 0.3:      # every source on its own set of coordinate labels (stations 0..n-1 shifted)
             da = da.assign_coords({d: da[d].values + rng.randint(1, 3) for d in da.dims})
         fcsts.append(da)
     obs = gens.rand_da(rng, sizes, dims=gens.sub_dims(rng, sizes, p_drop=0.3, keep_at_least=0), den=2, bound=4, nan_p=0.15 if rng.random() < 0.3 else 0.0)
+    if rng.random() < 0.15:
+        v = np.array(obs.values, dtype=float).ravel()
+        v[rng.randrange(v.size)] = rng.choice([INF, -INF])
+        obs = obs.copy(data=v.reshape(obs.shape))
     return fcsts, obs
 
 
@@ -267,6 +312,11 @@ def thetas_cases(ctx, n):
             ok = len(got) == len(want) and all(core.close(x, q) for x, q in zip(got, want)) and all(isinstance(x, float) for x in impl[1])
         ctx.case(d, impl[0] == "err" or len(impl[1]) > 0)
         ctx.count("thetas:" + ("ok" if impl[0] == "ok" else impl[1]))
+        if impl[0] == "ok":
+            if any(np.isinf(f.values).any() for f in fcsts):
+                ctx.count("thetas:infinite-forecast")
+            if np.isinf(np.asarray(obs.values, dtype=float)).any():
+                ctx.count("thetas:infinite-obs")
         if i < 1:
             ctx.sample(d)
         if not ok:
@@ -369,6 +419,84 @@ def diagram_props(ctx, rounds):
         ctx.count("diagram_rounds")
 
 
+def diagram_infinite(ctx, rounds):
+    """Murphy diagram of data containing +-inf (valid data): murphy_thetas returns exactly the kinks, the infinite values included as the
+    first / last theta (inf - delta = inf, inf +- a = inf); at every theta, at two interior points of every interval between consecutive
+    finite thetas, beyond the finite range and at +-inf each case scores the extended-real elementary score (a forecast of +inf
+    over-forecasts every theta >= obs, a forecast of -inf under-forecasts every theta < obs; sizes by IEEE rules), and the quantile curve
+    is constant between consecutive finite thetas (C11_thetas_cover_quantile_extended)"""
+    rng = ctx.rng
+    C = S()
+    ext = lambda x: float(x) if np.isinf(x) else Fr(float(x))        # noqa: E731
+    for _ in range(rounds):
+        if not ctx.time_left():
+            break
+        n = rng.randint(1, 4)
+        val = lambda: rng.choice([INF, -INF]) if rng.random() < 0.3 else Fr(rng.randint(-6, 6), 2)      # noqa: E731
+        fvals = [val() for _ in range(n)]
+        ovals = [val() for _ in range(n)]
+        if not any(isinf(v) for v in fvals + ovals):
+            (fvals if rng.random() < 0.6 else ovals)[rng.randrange(n)] = rng.choice([INF, -INF])
+        fn, alpha, a = rng.choice(FUNCS), rng.choice(ALPHAS), rng.choice(HUBERS)
+        delta = rng.choice([None, Fr(0), Fr(1, 4)])
+        fc = xr.DataArray([float(v) for v in fvals], dims=["x"])
+        obs = xr.DataArray([float(v) for v in ovals], dims=["x"])
+        kw = {"huber_a": float(a)} if fn == "huber" else {}
+        if delta is not None:
+            kw["left_limit_delta"] = float(delta)
+        case = {"fcst": fvals, "obs": ovals, "functional": fn, "alpha": alpha, "huber_a": a, "left_limit_delta": delta}
+        ctx.case(("diagram-inf", repr(case)))
+        ctx.count("diagram:infinite")
+        st, got_th = core.call_impl(C.murphy_thetas, [fc], obs, fn, **kw)
+        if st != "ok":
+            ctx.violation("murphy_thetas raised on data containing +-inf", case, "thetas", got_th)
+            continue
+        th = [ext(x) for x in got_th]
+        need = set(fvals) | set(ovals)
+        if fn == "huber":
+            need |= {o + a for o in ovals} | {o - a for o in ovals}
+        if fn != "quantile":
+            need |= {v - (delta or 0) for v in fvals}
+        if th != sorted(need):
+            ctx.violation("murphy_thetas is not the sorted set of kinks on data containing +-inf", case, sorted(need), th)
+            continue
+        tf = [x for x in th if not isinf(x)]
+        pts = []
+        for t1, t2 in zip(tf, tf[1:]):
+            pts += [t1, t1 + (t2 - t1) / 4, t1 + (t2 - t1) / 2]
+        pts += ([tf[-1], tf[-1] + 1, tf[0] - 1] if tf else [Fr(0)]) + [INF, -INF]
+        mkw = dict(functional=fn, alpha=float(alpha), preserve_dims="all", decomposition=True)
+        if fn == "huber":
+            mkw["huber_a"] = float(a)
+        st, r = core.call_impl(C.murphy_score, fc, obs, [float(p) for p in pts], **mkw)
+        if st != "ok":
+            ctx.violation("murphy_score raised on data containing +-inf", case, "values", r)
+            continue
+        arr = [r[k].transpose("theta", "x").values for k in NAMES]
+        bad = False
+        for j, t in enumerate(pts):
+            for i in range(n):
+                want = orc_es(fn, alpha, a, fvals[i], ovals[i], t)
+                if want is None:
+                    continue
+                got = [float(arr[k][j][i]) for k in range(3)]
+                if not all(core.close(got[k], want[k]) for k in range(3)):
+                    ctx.violation(f"murphy_score ({fn}) differs from the elementary score definition on data containing +-inf",
+                                  dict(case, case_index=i, theta=t), dict(zip(NAMES, want)), dict(zip(NAMES, got)),
+                                  finding_key=inf_fcst_key(fn, [fvals[i]], got, orc_es(fn, alpha, a, fvals[i], ovals[i], t, defect=True)))
+                    bad = True
+                    break
+            if bad:
+                break
+        if fn == "quantile" and not bad:
+            tot = arr[0]
+            for j in range(len(tf) - 1):
+                if not (np.array_equal(tot[3 * j], tot[3 * j + 1]) and np.array_equal(tot[3 * j], tot[3 * j + 2])):
+                    ctx.violation("quantile Murphy curve not constant between consecutive finite thetas (data containing +-inf)",
+                                  dict(case, theta1=tf[j], theta2=tf[j + 1]), "constant", [tot[3 * j + e].tolist() for e in range(3)])
+                    break
+
+
 def guard_probes(ctx):
     """documented parameter boundaries: alpha strictly inside (0,1), huber_a > 0 (huber only), left_limit_delta >= 0, known functional"""
     C = S()
@@ -425,6 +553,7 @@ def ragged_corpus(ctx):
         for srcs, nm in (([f1, f2], "shapes"), ([f1, f3, f2], "dimension order")):
             got = core.call_impl(C.murphy_thetas, srcs, o, fn, **kw)
             ctx.case(("ragged", fn, nm))
+            ctx.count("ragged_corpus")
             if got[0] != "ok" or [float(x) for x in got[1]] != want[fn]:
                 ctx.violation("murphy_thetas with forecast sources of different " + nm + " (regression of 38f0f85)",
                               {"functional": fn, "sources": [gens.da_repr(x) for x in srcs], "obs": gens.da_repr(o), **kw}, want[fn], str(got[1])[:200])
@@ -433,24 +562,44 @@ def ragged_corpus(ctx):
 # ------------------------------------------------------------------------------------------
 # exact-rational oracle (independent of the Coq model), used by run_without_model
 # ------------------------------------------------------------------------------------------
-def orc_es(fn, alpha, a, f, o, t):
-    """(total, underforecast, overforecast) of the elementary score of Ehm et al. (2016) / Taggart (2022)"""
-    over = under = Fr(0)
-    if o <= t < f:
-        over = (1 - alpha) * {"quantile": Fr(1), "expectile": t - o, "huber": min(t - o, a)}[fn]
-    if f <= t < o:
-        under = alpha * {"quantile": Fr(1), "expectile": o - t, "huber": min(o - t, a)}[fn]
-    return over + under, under, over
+def isinf(v):
+    return isinstance(v, float) and v in (INF, -INF)
+
+
+def orc_es(fn, alpha, a, f, o, t, defect=False):
+    """(total, underforecast, overforecast) of the elementary score of Ehm et al. (2016) / Taggart (2022) on the extended reals:
+    f, o, t are Fractions or +-inf (python floats); regions by the order of the extended reals, penalty sizes 1 / min(d, a) / d with
+    d = theta - obs resp. obs - theta (+inf when exactly one of them is infinite).  None when the size is undefined (obs = theta = -inf
+    inside the over-forecast region, expectile / Huber: inf - inf).  defect=True: the value before the repair
+    repo_fixes/murphy-infinite-forecast.diff (an infinite forecast contributes 0 for quantile / Huber)."""
+    pens = [Fr(0), Fr(0)]          # over, under
+    if defect and isinf(f) and fn in ("quantile", "huber"):
+        return Fr(0), Fr(0), Fr(0)
+    for k, (region, w, d_of) in enumerate(((o <= t < f, 1 - alpha, lambda: t - o), (f <= t < o, alpha, lambda: o - t))):
+        if not region:
+            continue
+        if fn == "quantile":
+            size = Fr(1)
+        else:
+            d = d_of()
+            if d != d:                      # inf - inf: obs = theta = -inf inside the over-forecast region
+                return None
+            size = d if fn == "expectile" else (a if isinf(d) else min(d, a))
+        pens[k] = INF if isinf(size) else w * size
+    over, under = pens
+    return (INF if isinf(over) or isinf(under) else over + under), under, over
 
 
 def oracle_grid(ctx):
-    """murphy_score (decomposition, preserve all) against the oracle on the full tie grid: theta == fcst, theta == obs, fcst == obs"""
+    """murphy_score (decomposition, preserve all) against the oracle on the full tie grid: theta == fcst, theta == obs, fcst == obs,
+    with +-inf among the forecasts, observations and thetas"""
     C = S()
     grid = [Fr(k, 2) for k in range(-3, 5)]
-    pts = [(f, o) for f in grid for o in grid]
+    ext = grid + [INF, -INF]
+    pts = [(f, o) for f in ext for o in ext]
     F = xr.DataArray([float(f) for f, _ in pts], dims="x")
     O = xr.DataArray([float(o) for _, o in pts], dims="x")
-    th = grid + [grid[0] - 1, grid[-1] + 1]
+    th = grid + [grid[0] - 1, grid[-1] + 1, INF, -INF]
     for fn in FUNCS:
         for alpha in (Fr(1, 4), Fr(3, 4)):
             a = Fr(1)
@@ -460,12 +609,25 @@ def oracle_grid(ctx):
             for j, t in enumerate(th):
                 for i, (f, o) in enumerate(pts):
                     want = orc_es(fn, alpha, a, f, o, t)
+                    if want is None:
+                        ctx.count("oracle_grid:undefined-size")
+                        continue
                     ctx.case(("orc", fn, alpha, f, o, t))
-                    if not all(core.close(arr[k][j][i], want[k]) for k in range(3)):
+                    if isinf(f) or isinf(o) or isinf(t):
+                        ctx.count("oracle_grid:infinite")
+                    got = [float(arr[k][j][i]) for k in range(3)]
+                    if not all(core.close(got[k], want[k]) for k in range(3)):
                         ctx.violation(f"murphy_score ({fn}) differs from the elementary score definition",
-                                      {"fcst": f, "obs": o, "theta": t, "alpha": alpha, "huber_a": a}, dict(zip(NAMES, want)),
-                                      {NAMES[k]: float(arr[k][j][i]) for k in range(3)})
+                                      {"fcst": f, "obs": o, "theta": t, "alpha": alpha, "huber_a": a}, dict(zip(NAMES, want)), dict(zip(NAMES, got)),
+                                      finding_key=inf_fcst_key(fn, [f], got, orc_es(fn, alpha, a, f, o, t, defect=True)))
     ctx.count("oracle_grid_points", 6 * len(th) * len(pts))
+
+
+def mean_ext(vals):
+    """mean of non-negative extended-real values (Fractions or +inf); NaN for no value"""
+    if not vals:
+        return NAN
+    return INF if any(isinf(v) for v in vals) else sum(vals) / len(vals)
 
 
 def oracle_means(ctx, n):
@@ -478,8 +640,12 @@ def oracle_means(ctx, n):
         if not ctx.time_left():
             break
         na, nb = rng.randint(1, 3), rng.randint(1, 3)
-        fv = [[None if rng.random() < 0.15 else Fr(rng.randint(-6, 6), 2) for _ in range(nb)] for _ in range(na)]
-        ov = [None if rng.random() < 0.15 else Fr(rng.randint(-6, 6), 2) for _ in range(nb)]
+        # every third case carries +-inf among the forecasts / observations / thetas (valid data: regions by the order of the extended
+        # reals, infinite penalty sizes by IEEE rules)
+        p_inf = 0.2 if rng.random() < 0.34 else 0.0
+        val = lambda: rng.choice([INF, -INF]) if rng.random() < p_inf else Fr(rng.randint(-6, 6), 2)      # noqa: E731
+        fv = [[None if rng.random() < 0.15 else val() for _ in range(nb)] for _ in range(na)]
+        ov = [None if rng.random() < 0.15 else val() for _ in range(nb)]
         if rng.random() < 0.5:            # exact hits fcst == obs among the pairs
             l = rng.randrange(nb)
             ov[l] = fv[rng.randrange(na)][l]
@@ -488,14 +654,14 @@ def oracle_means(ctx, n):
         F = xr.DataArray([[fl(fv[i][l]) for l in pb] for i in pa], dims=["a", "b"], coords={"a": pa, "b": pb})
         full = rng.random() < 0.5         # obs on both dimensions (own storage order) or on b only
         if full:
-            ovf = [[None if rng.random() < 0.15 else (fv[i][l] if rng.random() < 0.2 else Fr(rng.randint(-6, 6), 2)) for l in range(nb)] for i in range(na)]
+            ovf = [[None if rng.random() < 0.15 else (fv[i][l] if rng.random() < 0.2 else val()) for l in range(nb)] for i in range(na)]
             pao = rng.sample(range(na), na)
             O = xr.DataArray([[fl(ovf[i][l]) for l in pbo] for i in pao], dims=["a", "b"], coords={"a": pao, "b": pbo})
         else:
             ovf = [list(ov) for _ in range(na)]
             O = xr.DataArray([fl(ov[l]) for l in pbo], dims=["b"], coords={"b": pbo})
         fn, alpha, a = rng.choice(FUNCS), rng.choice(ALPHAS), rng.choice(HUBERS)
-        th = sorted({Fr(rng.randint(-6, 6), 2) for _ in range(3)} | {v for row in fv for v in row if v is not None and rng.random() < 0.5})
+        th = sorted({val() for _ in range(3)} | {v for row in fv for v in row if v is not None and rng.random() < 0.5})
         mode = rng.choice(["list", "list", "da", "da_b"])
         if mode == "list":
             TH = [[t] * nb for t in th]
@@ -515,6 +681,9 @@ def oracle_means(ctx, n):
                 "functional": fn, "alpha": alpha, "huber_a": a, "reduce_dims": red, "storage_order": {"fcst.a": pa, "fcst.b": pb, "obs.b": pbo, "thetas.b": pbt}}
         ctx.case(("orcmean", repr(case)))
         ctx.count("oracle_means:" + mode)
+        has_inf = any(isinf(v) for row in fv + ovf + TH for v in row)
+        if has_inf:
+            ctx.count("oracle_means:infinite")
         st, r = core.call_impl(C.murphy_score, F, O, thetas, functional=fn, alpha=float(alpha), decomposition=True, **kw)
         if st != "ok":
             ctx.violation("murphy_score raised on valid input", case, "values", r)
@@ -527,19 +696,29 @@ def oracle_means(ctx, n):
                 da = da.sortby(d)
             got = da.transpose("theta", *keep).values
             for j in range(len(th)):
-                cell = {}
+                cell, cell_defect, cell_f = {}, {}, {}
                 for i in range(na):
                     for l in range(nb):
                         key = tuple(x for x, d in ((i, "a"), (l, "b")) if d not in rset)
                         cell.setdefault(key, [])
+                        cell_defect.setdefault(key, [])
+                        cell_f.setdefault(key, [])
                         if fv[i][l] is not None and ovf[i][l] is not None and TH[j][l] is not None:
-                            cell[key].append(orc_es(fn, alpha, a, fv[i][l], ovf[i][l], TH[j][l])[k])
+                            e = orc_es(fn, alpha, a, fv[i][l], ovf[i][l], TH[j][l])
+                            cell[key].append(None if e is None else e[k])
+                            if e is not None:
+                                cell_defect[key].append(orc_es(fn, alpha, a, fv[i][l], ovf[i][l], TH[j][l], defect=True)[k])
+                            cell_f[key].append(fv[i][l])
                 for key, vals in cell.items():
                     g = got[(j,) + key]
-                    want = sum(vals) / len(vals) if vals else NAN
+                    if any(v is None for v in vals):        # a penalty size inf - inf among the cases: outside the definition
+                        ctx.count("oracle_means:undefined-size")
+                        continue
+                    want = mean_ext(vals)
                     if not core.close(g, want):
                         ctx.violation("murphy_score mean differs from the mean elementary score over the valid (theta, fcst, obs all present) cases",
-                                      dict(case, variable=name, theta_index=j, cell=key), want, float(g))
+                                      dict(case, variable=name, theta_index=j, cell=key), want, float(g),
+                                      finding_key=inf_fcst_key(fn, cell_f[key], float(g), mean_ext(cell_defect[key])))
                         bad = True
                         break
                 if bad:
@@ -650,6 +829,7 @@ def fine_thetas(ctx, n):
         case = {"fn": "murphy_thetas", "forecasts": [[float(v) for v in fv] for fv in fvals], "obs": [float(v) for v in ovals], "functional": fn,
                 "huber_a": float(a), "left_limit_delta": None if delta is None else float(delta), "unit": "values are multiples of 2**-30"}
         ctx.case(("fine", repr(case)))
+        ctx.count("fine_thetas")
         th = [Fr(float(x)) for x in got[1]] if got[0] == "ok" else None
         if th != sorted(need):
             ctx.violation("murphy_thetas is not the set of kinks on data with structure below 1e-8", case, [float(x) for x in sorted(need)],
@@ -695,6 +875,7 @@ def label_sets_corpus(ctx):
             kw["huber_a"] = 0.5
         got = core.call_impl(C.murphy_thetas, [f1, f2], o, fn, **kw)
         ctx.case(("labelsets", fn))
+        ctx.count("label_sets_corpus")
         if got[0] != "ok" or [float(x) for x in got[1]] != [float(x) for x in want[fn]]:
             ctx.violation("murphy_thetas loses kinks when the sources carry different coordinate labels", {"functional": fn, "sources": [gens.da_repr(f1), gens.da_repr(f2)],
                           "obs": gens.da_repr(o), **kw}, want[fn], str(got[1])[:300])
@@ -713,6 +894,7 @@ def run_without_model(ctx):
     ragged_corpus(ctx)
     guard_probes(ctx)
     diagram_props(ctx, ctx.n(40, 2500))
+    diagram_infinite(ctx, ctx.n(30, 1500))
     oracle_means(ctx, ctx.n(60, 3000))
     label_sets_corpus(ctx)
     dtype_cases(ctx, ctx.n(60, 2000))
@@ -733,6 +915,7 @@ def run(ctx):
     dtype_cases(ctx, ctx.n(60, 2000))
     fine_thetas(ctx, ctx.n(40, 1500))
     diagram_props(ctx, ctx.n(40, 2500))
+    diagram_infinite(ctx, ctx.n(30, 1500))
     murphy_cases(ctx, ctx.n(220, 12000))
     thetas_cases(ctx, ctx.n(200, 10000))
 
